@@ -380,9 +380,14 @@ class JSRegExp(JSObject):
 
     def __init__(self, pattern: str, flags: str = "", poll_callback=None):
         super().__init__()
-        from .regex import RegExp as InternalRegExp, MatchResult
+        from .regex import RegExp as InternalRegExp, RegExpError
+        from .errors import JSSyntaxError
 
-        self._internal = InternalRegExp(pattern, flags, poll_callback)
+        try:
+            self._internal = InternalRegExp(pattern, flags, poll_callback)
+        except RegExpError as e:
+            # A malformed pattern is a SyntaxError script code can catch
+            raise JSSyntaxError(f"Invalid regular expression: /{pattern}/: {e}")
         self._pattern = pattern
         self._flags = flags
 
